@@ -4,3 +4,4 @@ import Properties.C20
 import Properties.C03
 import Properties.C05
 import Properties.C04
+import Properties.C02
